@@ -45,13 +45,14 @@ type P struct {
 	Info  *types.Info
 	Files []*ast.File
 
-	fns      map[string]*ssa.Function // RelString name -> function (incl. closures)
-	fnList   []*ssa.Function
-	cg       *callgraph.Graph
-	sumMemo  map[string]bool
-	sumBusy  map[string]bool
-	borrowed map[string]*R
-	running  map[string]bool
+	fns        map[string]*ssa.Function // RelString name -> function (incl. closures)
+	fnList     []*ssa.Function
+	cg         *callgraph.Graph
+	sumMemo    map[string]bool
+	sumBusy    map[string]bool
+	borrowed   map[string]*R
+	regionMemo map[string]Region
+	running    map[string]bool
 }
 
 func loadConfig(dir string, cfg BuildConfig) (*P, error) {
